@@ -35,6 +35,10 @@ type c12Case struct {
 	Ops       []c12Op     `json:"ops"`
 	Packets   [][3]string `json:"packets"` // dst, src, mac (as ::mac)
 	ConstHash bool        `json:"consthash"`
+	// builder cases: the order in which production takes the kernel snapshot, writes the kernel keys from it and
+	// builds the userspace matcher: snapshot | install | userspace (default: the first-start order)
+	Order     []string `json:"order"`
+	SetProbes []string `json:"set_probes"` // addresses tested against every stored set, both forms
 }
 
 type c12Prefix struct {
@@ -65,6 +69,47 @@ type c12Result struct {
 	Tries      [][]c12Prefix `json:"tries"`
 	Matches    []int         `json:"matches"` // rule index, -1 fallback
 	DedupCount int           `json:"dedup_count"`
+	Installs   []c12Install  `json:"installs"` // one per replayed snapshot.BuildKernspace
+	TrieHas    [][]bool      `json:"trie_has"` // RoutingMatcher.lpmMatcher[set].HasPrefix(probe)
+}
+
+// c12Install is what one snapshot.BuildKernspace call hands to the kernel for the LPM-backed sets: the key list of
+// every stored set (buildRoutingKernspace: keys[j] = cidrToBpfLpmKey(cidr) over s.simulatedLpmTries) and the set
+// index each LPM rule of s.rules points at (before the ring offset, which is C02's).
+type c12Install struct {
+	Keys    [][]c12Key `json:"keys"`
+	RuleIdx []uint32   `json:"rule_idx"`
+	Err     string     `json:"err,omitempty"`
+}
+
+// c12ReplayBuildKernspace follows routingKernspaceSnapshot.BuildKernspace -> buildRoutingKernspace up to the map
+// writes (no kernel here): same inputs (s.rules, s.simulatedLpmTries), same conversion (the lifted cidrToBpfLpmKey).
+func c12ReplayBuildKernspace(s *routingKernspaceSnapshot) (in c12Install) {
+	in.Keys = [][]c12Key{}
+	in.RuleIdx = []uint32{}
+	if s == nil {
+		in.Err = "nil routing kernspace snapshot"
+		return in
+	}
+	if len(s.rules) == 0 {
+		in.Err = "no routing rules to build"
+		return in
+	}
+	for _, cidrs := range s.simulatedLpmTries {
+		keys := make([]c12Key, len(cidrs))
+		for j, cidr := range cidrs {
+			k := c12CidrToBpfLpmKey(cidr)
+			keys[j] = c12Key{PrefixLen: k.PrefixLen, Data: k.Data}
+		}
+		in.Keys = append(in.Keys, keys)
+	}
+	for _, r := range s.rules {
+		switch consts.MatchType(r.Type) {
+		case consts.MatchType_IpSet, consts.MatchType_SourceIpSet, consts.MatchType_Mac:
+			in.RuleIdx = append(in.RuleIdx, binary.LittleEndian.Uint32(r.Value[:4]))
+		}
+	}
+	return in
 }
 
 func c12DumpPrefix(p netip.Prefix) c12Prefix {
@@ -203,10 +248,45 @@ func c12RunBuilder(cs c12Case) (res c12Result) {
 		res.Tries = append(res.Tries, c12DumpPrefixes(t))
 	}
 	res.DedupCount = len(b.lpmDedup)
-	m, err := b.BuildUserspace()
-	if err != nil {
-		res.Err = "build: " + err.Error()
+	order := cs.Order
+	if len(order) == 0 {
+		order = []string{"snapshot", "install", "userspace"}
+	}
+	var snap *routingKernspaceSnapshot
+	var m *RoutingMatcher
+	res.Installs = []c12Install{}
+	for _, step := range order {
+		switch step {
+		case "snapshot":
+			snap = b.KernspaceSnapshot()
+		case "install":
+			if snap == nil {
+				res.Err = "harness: install before snapshot"
+				return res
+			}
+			res.Installs = append(res.Installs, c12ReplayBuildKernspace(snap))
+		case "userspace":
+			var err error
+			if m, err = b.BuildUserspace(); err != nil {
+				res.Err = "build: " + err.Error()
+				return res
+			}
+		default:
+			res.Err = "harness: bad step " + step
+			return res
+		}
+	}
+	if m == nil {
+		res.Err = "harness: order without userspace"
 		return res
+	}
+	res.TrieHas = [][]bool{}
+	for _, t := range m.lpmMatcher {
+		row := []bool{}
+		for _, s := range cs.SetProbes {
+			row = append(row, t.HasPrefix(c12ProbeBin(netip.MustParseAddr(s))))
+		}
+		res.TrieHas = append(res.TrieHas, row)
 	}
 	for _, pk := range cs.Packets {
 		out, _, _, err := m.Match(c12Addr16(pk[1]), c12Addr16(pk[0]), 1, 2, consts.IpVersion_6, consts.L4ProtoType_TCP, "", [16]uint8{}, 0, c12Addr16(pk[2]))
